@@ -211,6 +211,16 @@ impl std::hash::Hasher for Fnv {
         }
     }
 }
+/// Truncate in place at a character boundary at or below `n` bytes.
+pub fn clip(s: &mut String, n: usize) {
+    if s.len() > n {
+        let mut cut = n;
+        while !s.is_char_boundary(cut) {
+            cut -= 1;
+        }
+        s.truncate(cut);
+    }
+}
 pub fn hash_str(s: &str) -> u64 {
     hash_of(&s)
 }
